@@ -981,8 +981,35 @@ def r4(ctx, r):
                     bad.append(c)
         return list(seen.values()), sorted(set(bad)), sorted(set(touches))
     ORIG = (("handleConnectTimeout", "ConnectTimeout"), ("handleHandshakeTimeout", "HandshakeTimeout"), ("handleWriteStallTimeout", "WriteStall"))
+    def timer_entry(h, o):
+        """what the timer thread runs for that timeout: the handler method, or — when the handler's body was folded into it — the lambda
+        handed to the timer service whose id is stored in the Session field of that timeout (Session::connectTimeoutId, …)"""
+        if fb.funcs(TCP + "::" + h, FILES[TCP]):
+            return engine_fn(fb, TCP, h)
+        fld = SESS + "::" + o[0].lower() + o[1:].replace("Timeout", "") + "TimeoutId"
+        found = []
+        for x in fb.in_file(FILES[TCP]):
+            if not x.ok or x.cls != TCP:
+                continue
+            for n in x.nodes.values():
+                if is_assign_node(n):
+                    lhs, rhs = (n["lhs"], n["rhs"]) if n.get("k") == "bin" else (n["args"][0], n["args"][1])
+                    rhs = strip_wrappers(rhs)
+                    if field_of(lhs) == fld and rhs is not None and rhs.get("k") == "mcall" and field_of(rhs.get("obj")) == TCP + "::_timerService":
+                        for a in rhs.get("args", []):
+                            a = strip_wrappers(a)
+                            while a is not None and a.get("k") == "ctor" and len(a.get("args", [])) == 1:
+                                a = strip_wrappers(a["args"][0])
+                            if a is not None and a.get("k") == "lambda":
+                                found += [lf for (ln, lf) in x.lambdas if lf.name == a["fn"] and lf.ok]
+        if len(found) != 1:
+            raise AnalysisBroken("neither %s nor a single timer-service lambda stored in %s was found (%d)" % (h, short(fld), len(found)))
+        return found[0]
+
+    def is_assign_node(n):
+        return (n.get("k") == "bin" and n.get("op") == "=") or (n.get("k") == "opcall" and n.get("op") == "=" and len(n.get("args", [])) == 2)
     for h, o in ORIG:
-        g = engine_fn(fb, TCP, h)
+        g = timer_entry(h, o)
         r.instance()
         fns, bad, touches = closure(g)
         r.expect(not bad and not touches, g, None, "%s does more than enqueue" % h, "%s runs on the timer thread but calls %s / touches %s" % (h, bad, touches),
@@ -1011,12 +1038,28 @@ def r5(ctx, r):
             # before the first data of the session just created' spans that call.  process(), the close routines and readAvail (the
             # rule's own name for 'data is delivered') always stay calls.
             delivers = bool(events(f)[2])
+            stay = {cls + "::" + x for x in CLOSE_FNS + CONNECT_FNS[cls] + ("process", "readAvail")}
+
+            def reach(g, seen):
+                # events of g and of the methods of the engine it runs through (the announcement may sit one helper deeper)
+                if (g.name, g.line) in seen or g.name in stay or not g.ok:
+                    return (False, False, False)
+                seen.add((g.name, g.line))
+                a, i, d = (bool(x) for x in events(g))
+                for n in g.nodes.values():
+                    if n.get("k") in ("mcall", "call") and (n.get("callee") or "").startswith(cls + "::") and (n["k"] == "call" or (n.get("obj") or {}).get("k") == "this"):
+                        for h_ in fb.by_name.get(n["callee"], []):
+                            if h_.file == g.file and h_.kind == "method" and h_.cls == cls:
+                                a2, i2, d2 = reach(h_, seen)
+                                a, i, d = a or a2, i or i2, d or d2
+                # a call of readAvail is a delivery even though readAvail itself stays a call
+                return a, i, d
 
             def want(g):
-                if g.name in {cls + "::" + x for x in CLOSE_FNS + ("process", "readAvail")}:
+                if g.name in stay:
                     return False
-                a, i, d = events(g)
-                return (bool(a) and not i and not d) or (bool(i) and delivers)
+                a, i, d = reach(g, set())
+                return (a and not i and not d) or (i and delivers)
             return want
         for f in fb.in_file(FILES[cls]):
             if not f.ok or f.cls != cls:
